@@ -1,11 +1,100 @@
 import Driver.Wire
+import Sio.Model.RoomsSpec
 open Lean (Json)
 namespace Sio.KRooms
-open Sio.Wire
+open Sio.Wire Sio.Rooms
 
-/-- stub: replaced by the kernel's line-protocol handler -/
-def step (_ : Unit) (_ : Json) : Except String (Unit × Json) := throw "kernel not implemented"
+/-- model state and, folded over the same operations, the abstract specification -/
+structure DSt where
+  s : St
+  σ : Spec
 
-def main : IO Unit := lineLoop () step
+def init : DSt := ⟨[], Spec.init⟩
+
+def strArr (j : Json) : Except String (List Str) := do
+  let a ← j.getArr?
+  a.toList.mapM strOfJson
+
+def targetOfJson (j : Json) : Except String Target :=
+  if j.isNull then pure .all else
+  match j.getObjVal? "one" with
+  | .ok v => do let r ← strOfJson v; pure (.one r)
+  | .error _ =>
+  match j.getObjVal? "many" with
+  | .ok v => do let rs ← strArr v; pure (.many rs)
+  | .error _ => throw "bad target"
+
+def skipOfJson (j : Json) : Except String Skip :=
+  if j.isNull then pure .none else
+  match j.getObjVal? "one" with
+  | .ok v => do let r ← strOfJson v; pure (.one r)
+  | .error _ =>
+  match j.getObjVal? "many" with
+  | .ok v => do let rs ← strArr v; pure (.many rs)
+  | .error _ => throw "bad skip"
+
+def pairsToJson (l : List (Sid × Eio)) : Json :=
+  Json.arr (l.map (fun p => Json.arr #[strToJson p.1, strToJson p.2])).toArray
+
+def strsToJson (l : List Str) : Json := Json.arr (l.map strToJson).toArray
+
+def ok : Json := Json.mkObj [("ok", Json.bool true)]
+
+def both (d : DSt) (op : Op) : DSt := ⟨apply d.s op, d.σ.apply op⟩
+
+def step (d : DSt) (j : Json) : Except String (DSt × Json) := do
+  let op ← (← j.getObjVal? "op").getStr?
+  if op == "reset" then pure (init, ok)
+  else if op == "lost" then
+    let eio ← strOfJson (← j.getObjVal? "eio")
+    pure (both d (.lost eio), ok)
+  else
+  let ns ← strOfJson (← j.getObjVal? "ns")
+  if op == "connect" then
+    let eio ← strOfJson (← j.getObjVal? "eio")
+    let sid ← strOfJson (← j.getObjVal? "sid")
+    if (eioOf d.s ns sid).isSome then throw "connect: session id is not fresh"
+    let ans := match connect d.s ns eio sid with
+      | none => Json.mkObj [("dup", Json.bool true)]
+      | some _ => ok
+    pure (both d (.connect ns eio sid), ans)
+  else if op == "enter" then
+    let sid ← strOfJson (← j.getObjVal? "sid")
+    let room ← strOfJson (← j.getObjVal? "room")
+    let ans := match enter d.s ns sid room with
+      | .ok _ => ok
+      | .error e => excJson e
+    pure (both d (.enter ns sid room), ans)
+  else if op == "leave" then
+    let sid ← strOfJson (← j.getObjVal? "sid")
+    let room ← strOfJson (← j.getObjVal? "room")
+    pure (both d (.leave ns sid room), ok)
+  else if op == "close" then
+    let room ← strOfJson (← j.getObjVal? "room")
+    pure (both d (.closeRoom ns room), ok)
+  else if op == "disconnect" then
+    let sid ← strOfJson (← j.getObjVal? "sid")
+    -- `can_disconnect`: where the DISCONNECT packet goes, if anywhere
+    let ans := Json.mkObj [("eio", optStrToJson (eioOf d.s ns sid))]
+    pure (both d (.disconnect ns sid), ans)
+  else if op == "sid_of" then
+    -- `sid_from_eio_sid` (client DISCONNECT packet)
+    let eio ← strOfJson (← j.getObjVal? "eio")
+    pure (d, Json.mkObj [("sid", optStrToJson (sidOf d.s ns eio))])
+  else if op == "emit" then
+    let t ← targetOfJson (← j.getObjVal? "target")
+    let sk ← skipOfJson (← j.getObjVal? "skip")
+    let univ ← strArr (← j.getObjVal? "universe")
+    let rc := recipients d.s ns t sk.toList
+    let sp := univ.filter (fun sid => d.σ.shouldReceive ns t sk.toList sid)
+    pure (d, Json.mkObj [("to", pairsToJson rc), ("spec", strsToJson sp)])
+  else if op == "rooms" then
+    let sid ← strOfJson (← j.getObjVal? "sid")
+    let univ ← strArr (← j.getObjVal? "universe")
+    let sp := univ.filter (fun r => d.σ.member ns (some r) sid)
+    pure (d, Json.mkObj [("rooms", strsToJson (getRooms d.s ns sid)), ("spec", strsToJson sp)])
+  else throw s!"unknown op {op}"
+
+def main : IO Unit := lineLoop init step
 
 end Sio.KRooms
